@@ -57,6 +57,7 @@ func newEventDebouncer(name string, eventHandler func([]frame), logger StdLogger
 }
 
 func (e *eventDebouncer) stop() {
+	verifYield("ed.stop", nil, 0)
 	e.quit <- struct{}{} // sync with flusher
 	close(e.quit)
 }
@@ -65,6 +66,7 @@ func (e *eventDebouncer) flusher() {
 	for {
 		select {
 		case <-e.timer.C:
+			verifYield("ed.woke", nil, 0)
 			e.mu.Lock()
 			e.flush()
 			e.mu.Unlock()
